@@ -95,22 +95,31 @@ func (h *rec) ComStmtExecute(ctx context.Context, c *mysql.Conn, p *mysql.Prepar
 
 // smallLn accepts connections with a small kernel send buffer, so that a result larger than a few kilobytes keeps
 // the server inside its write until the client reads (slow or small-windowed clients are ordinary TCP behaviour).
+var sockBuf = 16384
+var wideLo, wideHi = 10, 40
+
 type smallLn struct{ net.Listener }
 
 func (l smallLn) Accept() (net.Conn, error) {
 	c, err := l.Listener.Accept()
 	if tc, ok := c.(*net.TCPConn); ok && err == nil {
-		_ = tc.SetWriteBuffer(4096)
+		_ = tc.SetWriteBuffer(sockBuf)
 	}
 	return c, err
 }
 
 func init() {
+	if v := os.Getenv("C35_BUF"); v != "" {
+		fmt.Sscan(v, &sockBuf)
+	}
+	if v := os.Getenv("C35_WIDE"); v != "" {
+		fmt.Sscan(v, &wideLo, &wideHi)
+	}
 	gomysql.RegisterDialContext("tcpsmall", func(ctx context.Context, addr string) (net.Conn, error) {
 		var d net.Dialer
 		c, err := d.DialContext(ctx, "tcp", addr)
 		if tc, ok := c.(*net.TCPConn); ok && err == nil {
-			_ = tc.SetReadBuffer(4096)
+			_ = tc.SetReadBuffer(sockBuf)
 		}
 		return c, err
 	})
@@ -357,10 +366,10 @@ func soakFor(r *lib.RNG, k int) caseT {
 		n += 128 * r.Range(1, 2)
 	}
 	cols := "id, tag, n, u, d"
-	if r.Chance(1, 2) {
+	if r.Chance(1, 4) {
 		// wide rows: the trailing batch is larger than the connection's write buffer, and the client is slow to
 		// read, so the server is still writing it while other connections run
-		cols = fmt.Sprintf("id, REPEAT(tag, %d) AS wide, u, tag", r.Range(4, 24))
+		cols = fmt.Sprintf("id, REPEAT(tag, %d) AS wide, u, tag", r.Range(wideLo, wideHi))
 		n = r.Range(60, 127)
 		cs.Slow = r.Range(200, 2500)
 	}
@@ -753,7 +762,7 @@ func main() {
 			}
 
 			// ----- concurrent phase -----
-			nsoak := 200
+			nsoak := 150
 			if c.Tier == "thorough" {
 				nsoak = 4000
 			}
